@@ -200,6 +200,18 @@ func runC07(t *testing.T, c *choice.Stream, r *Result, opt RunOpt) {
 		desc["cols"], desc["rows"], desc["compression"] = colNames(cols), rows, method
 		typed, _ := ResultTargets(cols)
 		auto := kind == "block-auto"
+		if !auto && c.Bool("target.raw", 1, 4) {
+			// fixed-width columns bound to the pass-through target (proto.ColRaw:
+			// bytes in, bytes out, for copying from one source to another)
+			for i, cs := range cols {
+				var b proto.Buffer
+				input[i].Data.EncodeColumn(&b)
+				if cs.RT.Size > 0 && rows > 0 && len(b.Buf) == rows*cs.RT.Size {
+					typed[i].Data = &proto.ColRaw{T: input[i].Data.Type(), Size: cs.RT.Size}
+					desc["raw_target"] = true
+				}
+			}
+		}
 		// the same block twice on one reader (a constant result sent in equal
 		// blocks): whatever the reader keeps from the first must not vouch for
 		// a second one that is cut short
